@@ -45,9 +45,9 @@ TAG = {'V': 0, 'W': 1, 'M': 9}
 
 class Expected: pass
 
-def expect(g, tb, data, skip_ws=True, skip_nl=True, ctx_mode=None, matchers=None, state_map=None):
+def expect(g, tb, data, skip_ws=True, skip_nl=True, ctx_mode=None, matchers=None, state_map=None, lexed=None):
     """Full expected observation. state_map: ref state -> lib state (for the verbose trace), optional."""
-    lx = lex(g, data, skip_ws, skip_nl, matchers)
+    lx = lexed if lexed is not None else lex(g, data, skip_ws, skip_nl, matchers)
     toks = [t[0] for t in lx.toks]
     if lx.lexerr is not None: toks.append(LEXERR)
     res = ref_lr1.parse(tb, toks, recover=True)
